@@ -77,6 +77,23 @@ RunWith(prog, cap, tkfail, tkkind) ==
         fr == NewFrame(m0, names, [i \in 1..Len(names) |-> UnboundV])
     IN ExecB(prog, 1, <<fr.a>>, fr.m).m
 
+(* Limits' rule applied to `n` further ticks on the same evaluator, starting from the counters
+   (atLast, counter) the previous evaluation left: the periodic check fires when the counter
+   reaches Period (immediately, if a failed check left it there), one more check at the end. *)
+RECURSIVE RunTicks(_, _, _, _, _)
+RunTicks(atLast, counter, n, budget, cancel) ==
+    LET j == IF counter >= Period THEN 1 ELSE Period - counter IN      \* ticks until the next periodic check
+    IF n < j THEN
+        (LET total == atLast + counter + n IN
+         [kind |-> IF cancel # 0 /\ total >= cancel THEN "cancelled" ELSE IF budget # 0 /\ total > budget THEN "ticks" ELSE "",
+          total |-> total, atLast |-> atLast, counter |-> counter + n])
+    ELSE LET total == atLast + counter + j IN
+         IF cancel # 0 /\ total >= cancel THEN [kind |-> "cancelled", total |-> total, atLast |-> atLast, counter |-> counter + j]
+         ELSE IF budget # 0 /\ total > budget THEN [kind |-> "ticks", total |-> total, atLast |-> atLast, counter |-> counter + j]
+         ELSE RunTicks(total, 0, n - j, budget, cancel)
+
+ProbeLoopTicks == 1502      \* def _p(n): for i in range(n): pass ; _p(1500) : the call, range(), 1500 iterations
+
 (* c: [t, n, cap, budget (0: none), cancel (0: none)] *)
 Expect(c) ==
     LET prog == Prog(c)
@@ -94,7 +111,14 @@ Expect(c) ==
         \* after the error the evaluator is reusable: what a trivial second evaluation must give
         \* (`emit(1)`: one more tick on the same, cumulative, counter)
         probe |-> IF c.cancel # 0 /\ m.tk + 1 >= c.cancel THEN "cancelled"
-                  ELSE IF c.budget # 0 /\ m.tk + 1 > c.budget THEN "ticks" ELSE ""]
+                  ELSE IF c.budget # 0 /\ m.tk + 1 > c.budget THEN "ticks" ELSE "",
+        \* and a LONG second evaluation (more than one check interval): where must it stop?
+        probe2 |-> LET periodic == m.err.kind \in {"ticks", "cancelled"}       \* main failed in a periodic check
+                       al0 == IF periodic THEN m.tk - Period ELSE Period * (m.tk \div Period)
+                       ct0 == IF periodic THEN Period ELSE m.tk % Period
+                       p1 == RunTicks(al0, ct0, 1, c.budget, c.cancel)            \* the first probe: emit(1)
+                       p2 == RunTicks(p1.atLast, p1.counter, ProbeLoopTicks, c.budget, c.cancel)
+                   IN [kind |-> p2.kind, total |-> p2.total]]
 
 CONSTANT Tier
 Sizes == IF Tier = "quick" THEN {997, 998} ELSE {995, 996, 997, 998, 999, 1000, 1995, 1996, 1997, 1998, 2996}
